@@ -101,7 +101,11 @@ def str_values():
                          'NA', 'null', 'None', 'nan', 'true', 'é', '中文',
                          "o'k", '"q"', 'back\\slash', 'a,b', 'tab\there',
                          'new\nline', '-', '^', ']', '^-', '😀']),
-        T.text_of(T.LOWER, 1, 4), T.text_of(T.DIGITS, 1, 4))
+        T.text_of(T.LOWER, 1, 4), T.text_of(T.DIGITS, 1, 4),
+        # long multi-line cells: more than 99 alternating runs of character
+        # classes, with line breaks inside
+        st.sampled_from(['a1\n' * 55, 'b2\n' * 55 + 'x',
+                         'k9 ' * 40 + '\n' + 'z0-' * 20]))
 
 
 def date_values(kind):
